@@ -299,6 +299,39 @@ CLAIMED = {
         technique="TLA+ spec SharedVars + TLC model check; real parent and spawned child processes; TLC batched trace "
                   "validation",
         design_ref="5/C29"),
+
+    "C26": dict(
+        category="model_checking",
+        text="Motor.tla states the control law exactly as the property does (desired = gain * (target - position) "
+             "on exact wide words; limited to prev +- acceleration, then to +- velocity limit, then zero if an "
+             "active limit switch blocks that direction) and its three consequences, model-checked on a small "
+             "grid. The real FastSyncGroup([Motor]) program over the bundled EL7041 terminal is executed by TLC "
+             "on the eBPF machine; the 16-bit velocity bytes and the enable bit in the final frame must equal "
+             "the law evaluated on the run's own inputs. Inputs: a boundary grid aiming the desired velocity at "
+             "each limit -1/0/+1 and far beyond int16 up to 2^63-1, x acceleration x velocity limit x previous "
+             "velocity x both switches, two PDO layouts (FMMU and direct), plus seeded random inputs; a sample "
+             "is cross-checked on the real kernel.",
+        note="Decided on the grid and samples, not for all bit-vectors (no symbolic proof was attempted: Apalache on "
+             "the machine was judged out of reach in the time). Assumes output enabled (wkc_errors != 0) and the "
+             "property's preconditions (limit within the output's range, previous velocity within the limit, "
+             "desired velocity fits 64 bits).",
+        technique="TLA+ spec Motor (law + consequences) over the eBPF machine; TLC executes the real emitted program",
+        design_ref="5/C26"),
+    "C19": dict(
+        category="model_checking",
+        text="ProcVar.tla defines Get / Set of a process variable (region start of its terminal and sync manager in "
+             "the frame, byte offset, format or bit) with the laws Set-is-local, Get-after-Set, Get-is-local. "
+             "Fixed-seed random terminals (ProcessDesc / PacketDesc entries, direct and in Struct channels with "
+             "offsets and decoy channels, size overrides, bits, formats BHIQbhiq, FMMU and direct addressing) and "
+             "devices whose update() and program() are the same statements run on both paths: the Python path on "
+             "a real SyncGroup's frame buffer, the program path as the emitted FastSyncGroup bytecode executed by "
+             "TLC on the same frame. Both must equal Get / Set, hence each other; four frames per configuration.",
+        note="Region starts are read from the frame, not from pdo_assign. Devices linking a WHOLE Struct cannot be "
+             "grouped at all (Device.get_terminals reads .sm of the Struct): counted as an observation in the "
+             "evidence, not judged, since there is then no access for C19 to speak about. Byte-order prefixes "
+             "belong to C07.",
+        technique="TLA+ spec ProcVar over the eBPF machine; real slow path and real emitted fast path compared by TLC",
+        design_ref="5/C19"),
 }
 NOT_YET = "not yet built in this round (planned in DESIGN.md section 5)"
 NOT_APPLICABLE = {}
